@@ -1005,8 +1005,10 @@ def faults_run(v, pid, plan):
         for x in died:
             if pid == "C05" and "panic" in (x.get("stderr") or "") + (x.get("stdout") or "") or pid == "C05" and x.get("exit") == 2:
                 # the broker runs inside the child: a dead child is the observation 'the broker process died'
+                err = x.get("stderr") or ""
+                head = [l for l in err.splitlines() if "fatal error" in l or l.startswith("panic:") or "out of memory" in l][:2] + [l.strip() for l in err.splitlines() if "go-mqtt/" in l][:2]
                 v.mismatch({"what": "the broker process died while a fault sequence was executed (exit %s): %s" % (
-                    x.get("exit"), (x.get("stderr") or "")[:300].replace("\n", " | ")), "replay": {"shard": x.get("shard"), "configuration": name}})
+                    x.get("exit"), " | ".join(head)[:400] or err[:300].replace("\n", " | ")), "replay": {"shard": x.get("shard"), "configuration": name}})
             else:
                 raise Infra("faults harness child died (exit %s): %s" % (x.get("exit"), (x.get("stderr") or "")[:600]))
         if res.get("counts", {}).get("infra"):
